@@ -16,7 +16,7 @@
 (* N = 3), max_neighbors, the wavenumber (multiples of pi/2 and generic    *)
 (* rationals), timesteps, dt, and the S4 lag / time / wave-vector range.   *)
 (* Part "exh": d = 2, N = 2, box 6x6, ALL per-step displacements in        *)
-(* {-1,0,1,2}^2 for T = 2 (quick) and T = 3 (thorough), modes x kinds.     *)
+(* {-1,0,1,2}^2 for T = 2 (quick), in {-1,0,2}^2 for T = 3 (thorough).      *)
 (***************************************************************************)
 EXTENDS Relaxation, TLC, Json
 
@@ -108,9 +108,11 @@ ExhCase(steps, mi, ci, T) ==
          [ tslog |-> SubSeq(<<0, 1, 3>>, 1, T), dt |-> <<1, 4>>, nt |-> 1, toff |-> 0, numofq |-> 2,
            fam |-> 0, h |-> SumSeq([f \in 1..(T - 1) |-> SumSeq([i \in 1..2 |->
                                7 * (steps[f][i][1] + 2) + 3 * f * (steps[f][i][2] + 2) + i])]) ] >>
+ExhSteps == IF Tier = "quick" THEN {0 - 1, 0, 1, 2} ELSE {0 - 1, 0, 2}
 ExhInputs ==
   { ExhCase(steps, mi, ci, ExhT) :
-      steps \in [1..(ExhT - 1) -> [1..2 -> [1..2 -> {0 - 1, 0, 1, 2}]]], mi \in 1..3, ci \in 1..2 }
+      steps \in [1..(ExhT - 1) -> [1..2 -> [1..2 -> ExhSteps]]],
+      mi \in (IF Tier = "quick" THEN 1..3 ELSE 1..2), ci \in 1..2 }
 
 Inputs == IF Part = "fam" THEN FamInputs ELSE ExhInputs
 
